@@ -14,7 +14,7 @@ from pvmon import gen, pipes, trace
 
 LEVEL = "exploration"
 RULE = (
-    "words over the 10 step kinds: every word up to length L (quick 5, thorough 6) enumerated completely, "
+    "words over the 10 step kinds: every word up to length L (quick 5, thorough 7) enumerated completely, "
     "DFA-accepted words again with suffixed first occurrences; random longer words from the DFA language "
     "perturbed by one edit; accepted words executed under the step tracer on a 14x18 pair with and without "
     "validation and with 2-3 scales; check/run histories on one machine. distinct = distinct tuple of step "
@@ -38,7 +38,7 @@ GATES = {
     "accepted_words": 100,
 }
 
-L_ENUM = {"quick": 5, "thorough": 6}
+L_ENUM = {"quick": 5, "thorough": 7}
 N_ENUM_SHARDS = {"quick": 8, "thorough": 16}
 
 
@@ -225,7 +225,8 @@ def run_case(case, ctx):
         pipe = pipes.instantiate(keys, multiband=True)
         m = pipes.new_machine()
         expect = pipes.dfa_accepts(keys)
-        ctx.case(["accept", keys], nontrivial=len(keys) >= 2 or not expect)
+        ctx.case(["accept", keys], nontrivial=len(keys) >= 2 or not expect,
+                 unique_by_construction=case["variant"] in ("bare", "sfx", "sfx-last"))
         tr = trace.Tracer(m)
         try:
             m.check_conf({"pipeline": copy.deepcopy(pipe)}, left_m, right_m)
@@ -350,12 +351,35 @@ def _exec(case, ctx, keys, kinds):
     tr = trace.Tracer(m)
     with trace.ClassSpy(m) as spy:
         marks = []
-        tr.on_after = lambda ev, mm: marks.append((ev["step_key"], ev["phase"], len(spy.calls)))
+        asym = []
+
+        def structure(ds):
+            if ds is None:
+                return None
+            ind = [str(x) for x in ds.coords["indicator"].data] if "indicator" in ds.coords else []
+            return (sorted(map(str, ds.data_vars)), ind)
+
+        def on_after(ev, mm):
+            marks.append((ev["step_key"], ev["phase"], len(spy.calls)))
+            # effect-based symmetry: with a validation step every step leaves the right products with the same
+            # structure (variables, confidence bands in the same order) as the left ones
+            if "validation" in kinds and ev["phase"] == "after" and ev["kind"] != "multiscale":
+                for a_, b_ in (("left_cv", "right_cv"), ("left_disparity", "right_disparity")):
+                    sa, sb = structure(getattr(mm, a_, None)), structure(getattr(mm, b_, None))
+                    if sa != sb and sa is not None and sb is not None:
+                        asym.append((ev["step_key"], a_, sa, sb))
+                ctx.count("structure_symmetry_observations")
+
+        tr.on_after = on_after
         tr.on_before = lambda ev, mm: marks.append((ev["step_key"], "before-" + ev["phase"], len(spy.calls)))
         lres, rres = pandora.run(m, left, right, cfg)
     probs = _clean(m)
     if probs:
         ctx.violation("machine-not-reset-after-run", f"word {keys}: {probs}", case)
+    if asym:
+        k0, name, sa, sb = asym[0]
+        ctx.violation("step-effect-not-symmetric-on-right-data",
+                      f"word {keys}: after {k0} the {name} has {sa} but its right counterpart has {sb}", case, situation=pipes.kind_of(k0))
     got = [(k, ph, sc) for (k, ph, sc, _shape, _res) in tr.run_steps()]
     S_eff = S_cfg if "multiscale" in kinds else 1
     exp = expected_trace(keys, kinds, S_eff)
